@@ -11,6 +11,7 @@ EXPLANATION = (
     "outside-fence buffer, which is appended to only on the no-fence path; includes are resolved against the parent of "
     "the including file's canonical path; recursion happens only through the guarded function; a missing target exits with Err. "
     "Not decided: the exact spliced text and fence-length corner cases (string values)."
+    ' (R7) is_code_fence_close rejects exactly the lines with another marker or a SHORTER run than the opening fence, decided over the finite (marker, length) table.'
 )
 
 HS = r"std::collections::hash::set::HashSet::<T, S, A>::"
